@@ -1,4 +1,5 @@
 import Memterm.Proofs.InvStep
+import Memterm.Spec.C06
 
 /-
   C06 — Scrolling and line insertion/deletion stay inside the scrolling region.
@@ -7,101 +8,6 @@ namespace Memterm
 namespace C06
 
 open Gen
-
-/-- what the property documents: the grid, cursor position and margins afterwards -/
-structure Expect where
-  cell : Nat → Nat → Cell
-  x : Nat
-  y : Nat
-  margins : Option (Nat × Nat)
-
-/-- rows `[lo, hi]` moved up by `k` (row y <- row y+k), vacated rows blank -/
-def rowsUp (s : Screen) (lo hi k : Nat) : Nat → Nat → Cell := fun y x =>
-  if lo ≤ y ∧ y ≤ hi then (if y + k ≤ hi then s.cell (y + k) x else defaultCell s) else s.cell y x
-
-/-- rows `[lo, hi]` moved down by `k` (row y <- row y-k), vacated rows blank -/
-def rowsDown (s : Screen) (lo hi k : Nat) : Nat → Nat → Cell := fun y x =>
-  if lo ≤ y ∧ y ≤ hi then (if y < lo + k then defaultCell s else s.cell (y - k) x) else s.cell y x
-
-def atBottom (s : Screen) : Prop := s.cursor.y = bottomMargin s
-def atTop (s : Screen) : Prop := s.cursor.y = topMargin s
-def inRegion (s : Screen) : Prop := topMargin s ≤ s.cursor.y ∧ s.cursor.y ≤ bottomMargin s
-
-instance (s : Screen) : Decidable (atBottom s) := inferInstanceAs (Decidable (_ = _))
-instance (s : Screen) : Decidable (atTop s) := inferInstanceAs (Decidable (_ = _))
-instance (s : Screen) : Decidable (inRegion s) := inferInstanceAs (Decidable (_ ∧ _))
-
-def expectIndex (s : Screen) : Expect :=
-  { cell := if atBottom s then rowsUp s (topMargin s) (bottomMargin s) 1 else s.cell
-    x := s.cursor.x
-    y := if atBottom s then s.cursor.y else min (s.cursor.y + 1) (bottomMargin s)
-    margins := s.margins }
-
-/-- number of lines actually inserted / deleted -/
-def lineShift (s : Screen) (n : Option Nat) : Nat := min (nz n) (bottomMargin s - s.cursor.y + 1)
-
-/-- the clamped (top, bottom) DECSTBM would install -/
-def stbmRegion (s : Screen) (top bottom : Option Nat) : Nat × Nat :=
-  let cur : Nat × Nat := s.margins.getD (0, s.lines - 1)
-  (match top with | none => cur.1 | some v => min (v - 1) (s.lines - 1),
-   match bottom with | none => cur.2 | some v => min (v - 1) (s.lines - 1))
-
-def stbmClears (top bottom : Option Nat) : Prop := (top = none ∨ top = some 0) ∧ bottom = none
-instance (top bottom : Option Nat) : Decidable (stbmClears top bottom) := inferInstanceAs (Decidable (_ ∧ _))
-
-def stbmAccepts (s : Screen) (top bottom : Option Nat) : Prop :=
-  ¬ stbmClears top bottom ∧ (stbmRegion s top bottom).1 + 1 ≤ (stbmRegion s top bottom).2
-instance (s : Screen) (top bottom : Option Nat) : Decidable (stbmAccepts s top bottom) :=
-  inferInstanceAs (Decidable (_ ∧ _))
-
-def expect (s : Screen) : Call → Option Expect
-  | .index => some (expectIndex s)
-  | .linefeed =>
-    some { cell := (expectIndex s).cell, x := if s.mode LNM then 0 else s.cursor.x,
-           y := (expectIndex s).y, margins := s.margins }
-  | .reverseIndex =>
-    some { cell := if atTop s then rowsDown s (topMargin s) (bottomMargin s) 1 else s.cell
-           x := s.cursor.x
-           y := if atTop s then s.cursor.y else max (s.cursor.y - 1) (topMargin s)
-           margins := s.margins }
-  | .insertLines n =>
-    some { cell := if inRegion s then rowsDown s s.cursor.y (bottomMargin s) (lineShift s n) else s.cell
-           x := if inRegion s then 0 else s.cursor.x
-           y := s.cursor.y
-           margins := s.margins }
-  | .deleteLines n =>
-    some { cell := if inRegion s then rowsUp s s.cursor.y (bottomMargin s) (lineShift s n) else s.cell
-           x := if inRegion s then 0 else s.cursor.x
-           y := s.cursor.y
-           margins := s.margins }
-  | .setMargins top bottom =>
-    some { cell := s.cell
-           x := if stbmAccepts s top bottom then 0 else s.cursor.x
-           y := if stbmAccepts s top bottom then (if s.mode DECOM then (stbmRegion s top bottom).1 else 0)
-                else s.cursor.y
-           margins := if stbmClears top bottom then none
-                      else if stbmAccepts s top bottom then some (stbmRegion s top bottom) else s.margins }
-  | _ => none
-
-/-- everything but the grid, the cursor position, the margins and the dirty set is equal -/
-def SameRest (s s' : Screen) : Prop := SameSettings { s with margins := s'.margins } s'
-
-/-- the documented outcome `e` is met by `post` -/
-structure Meets (s : Screen) (e : Expect) (post : Screen) : Prop where
-  cell : ∀ y x, y < s.lines → x < s.columns → post.cell y x = e.cell y x
-  x : post.cursor.x = e.x
-  y : post.cursor.y = e.y
-  marg : post.margins = e.margins
-  rest : SameRest s post
-
-/-- executable predicate -/
-def propC06 (cands : List Nat) (pre : Screen) (c : Call) (post : Screen) : Bool :=
-  match expect pre c with
-  | none => true
-  | some e =>
-    allCellsB pre.lines pre.columns (fun y x => decide (post.cell y x = e.cell y x)) &&
-    post.cursor.x == e.x && post.cursor.y == e.y && post.margins == e.margins &&
-    sameSettingsB cands { pre with margins := post.margins } post
 
 theorem propC06_of_meets (cands : List Nat) (pre : Screen) (c : Call) (post : Screen)
     (h : ∀ e, expect pre c = some e → Meets pre e post) : propC06 cands pre c post = true := by
@@ -423,3 +329,4 @@ example :
 
 end C06
 end Memterm
+
